@@ -16,6 +16,12 @@ def run(ctx):
     jobs = []
     for i in range(n):
         jobs.append(e2ejobs.job(rng, jobs=rng.choice([2, 3, 4, 4]) if i % 4 else 1, size='small' if i % 3 else 'medium'))
+    # ddmin with a slow command: workers are still busy with the superseded input when the next tasks arrive
+    for i in range(40 if ctx.thorough else 8):
+        j = e2ejobs.job(rng, strategy='ddmin', jobs=rng.choice([2, 3, 4]), size='medium')
+        j['env']['VERIF_CMD_DELAY'] = str(rng.choice([30, 60, 120]))
+        j['env'].pop('VERIF_WORKER_DELAY', None)
+        jobs.append(j)
     runs = e2e.run_many(jobs)
     for j, r in zip(jobs, runs):
         P = e2e.analyse(r)
